@@ -34,7 +34,9 @@ def _datasets():
         X = np.column_stack([np.arange(n) % 5, f, rs.randn(n).round(2)]).astype(float)
         out[d] = {"X": X, "y": y, "g": g, "yc": (y + rs.randn(n) * 0.1).round(3), "gc": (np.arange(n) % 4) / 4 + 0.13}
     q = np.column_stack([np.arange(9) % 5, np.arange(9) % 2, np.linspace(-1, 1, 9)]).astype(float)
-    return out, q, np.array(["a", "b", "a", "b", "a", "b", "a", "b", "a"])
+    # two query rows carry group "c", which occurs in D2 only: a model fitted on D1 must not know anything about it,
+    # whatever the same object was fitted on before
+    return out, q, np.array(["a", "b", "c", "b", "a", "c", "a", "b", "a"])
 
 
 def make(kind, ci):
@@ -214,8 +216,10 @@ def run(ck):
     jobs = []
     for bi, b in enumerate(beh):
         for ci in range(NCFG[b["kind"]]):
-            # quick: every behaviour with configuration 0 and one further configuration (rotating); thorough: all
-            if ck.quick and not (ci == 0 or ci == bi % NCFG[b["kind"]]):
+            # quick: every behaviour with configuration 0 and one further configuration (rotating), and EVERY configuration for the
+            # behaviours with two fits (the refit histories are the core of the property); thorough: all
+            nfit = sum(1 for h in b["hist"] if h[0] == "fit")
+            if ck.quick and nfit < 2 and not (ci == 0 or ci == bi % NCFG[b["kind"]]):
                 continue
             jobs.append((b["kind"], ci, [tuple(h) for h in b["hist"]], ck.known))
     recs = pmap(_run, jobs, chunksize=2)
